@@ -1,6 +1,133 @@
 import DaskModel.DriverLib
+import DaskModel.Model.TreeReduce
+import DaskModel.Model.BlockScan
 open Dask
 
-def table : List (String × Handler) := []
+namespace ReduceDriver
+open Dask.TreeReduce Dask.BlockScan
+
+def toOptNat? : SExp → Option (Option Nat)
+  | .sym "none" => some none
+  | e => (e.toNat?).map some
+
+def toOptNats? (e : SExp) : Option (List (Option Nat)) := do (← e.toList?).mapM toOptNat?
+
+def ofKey (k : List Nat) : SExp := SExp.ofNats k
+
+def ofPlanRound (r : List (List Nat × List (List Nat))) : SExp :=
+  .list (r.map fun (k, ins) => .list [ofKey k, SExp.ofNatss ins])
+
+def ofGrid {γ : Type} (f : γ → SExp) (g : Option (Grid γ)) : SExp :=
+  match g with
+  | none => .list [.sym "raised"]
+  | some g => .list (.sym "ok" :: g.map fun (k, v) => .list [ofKey k, f v])
+
+def ofPair (p : Int × Int) : SExp := .list [.int p.1, .int p.2]
+
+/-- `(plan (numblocks…) (split…) keepdims depth)` -/
+def hPlan : Handler := handler fun args =>
+  match args with
+  | [nb, sp, kd, d] => do
+    let nb ← nb.toNats?
+    let sp ← toOptNats? sp
+    let kd ← kd.toBool?
+    let d ← d.toNat?
+    pure (.list ((treePlan nb sp kd d).map ofPlanRound))
+  | _ => none
+
+def runRed {β γ : Type} (r : Red Int β γ) (f : γ → SExp) (nb : List Nat) (sp : List (Option Nat))
+    (kd : Bool) (d : Nat) (blocks : List (List Int)) : SExp :=
+  ofGrid f (r.run nb sp kd d blocks)
+
+/-- `(treduce op (numblocks…) (split…) keepdims depth (block…))`, `op` = `sum|prod|any|all|min|max|mean|(topk k)` -/
+def hTreduce : Handler := handler fun args =>
+  match args with
+  | [op, nb, sp, kd, d, blocks] => do
+    let nb ← nb.toNats?
+    let sp ← toOptNats? sp
+    let kd ← kd.toBool?
+    let d ← d.toNat?
+    let blocks ← blocks.toIntss?
+    match op with
+    | .sym "sum" => pure (runRed redSum .int nb sp kd d blocks)
+    | .sym "prod" => pure (runRed redProd .int nb sp kd d blocks)
+    | .sym "any" => pure (runRed redAny SExp.ofBool nb sp kd d blocks)
+    | .sym "all" => pure (runRed redAll SExp.ofBool nb sp kd d blocks)
+    | .sym "min" => pure (runRed redMin SExp.ofOptInt nb sp kd d blocks)
+    | .sym "max" => pure (runRed redMax SExp.ofOptInt nb sp kd d blocks)
+    | .sym "mean" => pure (runRed redMean ofPair nb sp kd d blocks)
+    | .list [.sym "topk", .int k] => pure (runRed (redTopk k) SExp.ofInts nb sp kd d blocks)
+    | _ => none
+  | _ => none
+
+/-- `(argreduce min|max (total shape…) (numblocks…) (split…) depth ((bshape offset data)…))` -/
+def hArg : Handler := handler fun args =>
+  match args with
+  | [.sym which, total, nb, sp, d, blocks] => do
+    let total ← total.toNats?
+    let nb ← nb.toNats?
+    let sp ← toOptNats? sp
+    let d ← d.toNat?
+    let lt : Int → Int → Bool ← match which with
+      | "min" => some (fun a b => decide (a < b))
+      | "max" => some (fun a b => decide (a > b))
+      | _ => none
+    let bl ← (← blocks.toList?).mapM fun b =>
+      match b with
+      | .list [bs, off, data] => do pure ((← bs.toNats?), (← off.toNats?), (← data.toInts?))
+      | _ => none
+    match bl.mapM (fun (bs, off, data) => argChunk lt bs off total data) with
+    | none => pure (.list [.sym "raised"])
+    | some parts =>
+      let comb := fun ps => (argCombine lt ps).getD (0, 0)
+      pure (ofGrid (fun (p : Int × Nat) => .list [.int p.1, .int p.2])
+        (gridReduce comb comb nb sp false d (mkGrid nb parts)))
+  | _ => none
+
+def scanOp? : SExp → Option ((Int → Int → Int) × Int)
+  | .sym "sum" => some ((· + ·), 0)
+  | .sym "prod" => some ((· * ·), 1)
+  | _ => none
+
+/-- `(seqscan sum|prod (block…))` -/
+def hSeqScan : Handler := handler fun args =>
+  match args with
+  | [op, blocks] => do
+    let (f, e) ← scanOp? op
+    let blocks ← blocks.toIntss?
+    pure (.list [.sym "ok", .list ((seqScan f e blocks).map SExp.ofInts)])
+  | _ => none
+
+/-- `(blelloch sum|prod (block…))` -/
+def hBlelloch : Handler := handler fun args =>
+  match args with
+  | [op, blocks] => do
+    let (f, e) ← scanOp? op
+    let blocks ← blocks.toIntss?
+    match blelloch f e blocks with
+    | some r => pure (.list [.sym "ok", .list (r.map SExp.ofInts)])
+    | none => pure (.list [.sym "raised"])
+  | _ => none
+
+/-- `(blsched n)` ↦ `((level i stride)…)` -/
+def hBlSched : Handler := handler fun args =>
+  match args with
+  | [n] => do
+    let n ← n.toNat?
+    pure (.list ((schedule n).map fun s => SExp.ofNats [s.level, s.i, s.stride]))
+  | _ => none
+
+/-- `(schedok n)` -/
+def hSchedOk : Handler := handler fun args =>
+  match args with
+  | [n] => do pure (SExp.ofBool (schedOk (← n.toNat?)))
+  | _ => none
+
+end ReduceDriver
+
+def table : List (String × Handler) := [
+  ("plan", ReduceDriver.hPlan), ("treduce", ReduceDriver.hTreduce), ("argreduce", ReduceDriver.hArg),
+  ("seqscan", ReduceDriver.hSeqScan), ("blelloch", ReduceDriver.hBlelloch),
+  ("blsched", ReduceDriver.hBlSched), ("schedok", ReduceDriver.hSchedOk)]
 
 def main : IO Unit := runDriver table
